@@ -304,6 +304,8 @@ impl Model {
             let s = self.subs.get(sub).unwrap();
             if !seen_acks.insert(ack_id.clone()) || s.used_ack_ids.contains(ack_id) {
                 self.flag("C03", "C03:X1:ack-id-reused", format!("ack id {:?} was used before on {}", ack_id, short(sub)));
+                // seen from C02: a stale ID that is issued again is no longer without effect when acknowledged
+                self.flag("C02", "C02:stale-ack-id-reissued", format!("ack id {:?} of an earlier delivery on {} was issued again for another delivery: acknowledging the stale ID would now hit that delivery", ack_id, short(sub)));
             }
             if !seen_tags.insert(tag.clone()) {
                 self.flag("C03", "C03:X2:duplicate-in-response", format!("message {} twice in one response", tag));
